@@ -11,6 +11,7 @@ var (
 	ErrContractAddressCollision = errors.New("contract address collision")
 	ErrContractCodeLoadFail     = errors.New("contract code load fail")
 	ErrAssetEquity              = errors.New("asset equity can't be nil or 0")
+	ErrNegativeAssetAmount      = errors.New("asset transfer amount can't be negative")
 	ErrTransferFrozenAsset      = errors.New("cannot trade frozen assets")
 	ErrTermReward               = errors.New("no permission to call this Precompiled contract")
 )
